@@ -122,9 +122,49 @@ def run(report, db, tier):
 
     check_reactors(report, db, P, R3)
     check_predicate_constants(report, db, P, R5)
+    check_pure(report, db, P, ladders)
     if tier == 'thorough':
         cell_crosscheck(report, db, P)
         shift_consistency(report, db, P)
+
+
+def registry_functions(db, P, ladders=None):
+    """get_packets of the eight tables with what they call inside the
+    packets package, and get_id of every class a table registers"""
+    from ..callgraph import CallGraph
+    cg = CallGraph(db)
+    roots = []
+    for d in DIRS:
+        for s in STATES:
+            roots.append(P.table_func(d, s))
+    funcs = [f for f in cg.reachable(roots)
+             if f.module.name.startswith('minecraft.networking.packets')]
+    seen = set(funcs)
+    for cv in sorted(ladders or (), key=lambda c: c.ci.fq):
+        fi = db.find_method(cv.ci, 'get_id')
+        if fi is not None and fi not in seen:
+            seen.add(fi)
+            funcs.append(fi)
+            for g in cg.reachable([fi]):
+                if g not in seen and g.module.name.startswith(
+                        'minecraft.networking.packets'):
+                    seen.add(g)
+                    funcs.append(g)
+    return sorted(funcs, key=lambda f: (f.path, f.lineno))
+
+
+def check_pure(report, db, P, ladders, rid='R06.7'):
+    from .. import shared
+    R = report.rule(rid, 'a table is a function of the version: get_packets '
+                    'and get_id change no object that outlives the call')
+    funcs = registry_functions(db, P, ladders)
+    n = shared.pure_of_shared_state(
+        report, R, db, funcs, 'registry functions (get_packets, get_id and '
+        'their helpers)', 'the table of one version now depends on which '
+        'versions were asked for before -- a class registered for a later '
+        'version stays registered for an earlier one, where its id belongs '
+        'to another class (or to none)')
+    report.floor('registry functions checked for purity', n, 40)
 
 
 def check_reactors(report, db, P, R3):
